@@ -153,6 +153,7 @@ func driveTotal(args []string) error {
 	out := fs.String("out", "", "output directory")
 	chunk := fs.Int("chunk", 3000, "events per chunk")
 	crashed := fs.String("crashed", "", "comma separated <pair number>:<how> of pairs that killed (or hung) an earlier attempt of this run: reported, not run again")
+	onlyCrashed := fs.Bool("only-crashed", false, "report the pairs listed in -crashed and run nothing (too many attempts died: the tree kills the driver at many pairs)")
 	fs.Parse(args)
 	crashedHow := map[string]string{}
 	for _, c := range strings.Split(*crashed, ",") {
@@ -178,6 +179,8 @@ func driveTotal(args []string) error {
 		ok := true
 		if how, dead := crashedHow[fmt.Sprint(pairNo)]; dead {
 			ev = enc.M{"ev": "total", "n": w.n + 1, "refs": []interface{}{}, "dk": []interface{}{}, "outs": []interface{}{how}, "labels": []interface{}{"the driver process (earlier attempt)"}}
+		} else if *onlyCrashed {
+			return nil
 		} else {
 			_ = os.WriteFile(filepath.Join(*out, "current.txt"), []byte(fmt.Sprint(pairNo)), 0o644)
 			ev, ok = totalCase(w.n+1, st, it, reg)
